@@ -20,6 +20,7 @@ import (
 
 var (
 	repo    = flag.String("repo", "/repo", "thunder working tree")
+	target  = flag.String("target", "/repo", "tree the build reads (overlay keys are below it)")
 	out     = flag.String("out", "", "scratch output directory")
 	hooks   = flag.String("hooks", "", "directory with verif-tagged files to add (<hooks>/<pkgdir>/*.go)")
 	extra   = flag.String("extra", "", "directory with replacement files for dependencies (<extra>/MAP.json)")
@@ -606,7 +607,7 @@ func main() {
 				fmt.Fprintln(os.Stderr, err)
 				os.Exit(2)
 			}
-			overlay[fn] = dst
+			overlay[filepath.Join(*target, rel)] = dst
 		}
 	}
 	if len(allErrs) > 0 {
@@ -614,6 +615,25 @@ func main() {
 			fmt.Fprintln(os.Stderr, "vrewrite:", e)
 		}
 		os.Exit(2)
+	}
+	// testing a scratch copy: carry its other differing files over as plain replacements
+	if *repo != *target {
+		filepath.Walk(*repo, func(path string, fi os.FileInfo, err error) error {
+			if err != nil || fi.IsDir() || !strings.HasSuffix(path, ".go") || strings.HasSuffix(path, "_test.go") {
+				return nil
+			}
+			rel, _ := filepath.Rel(*repo, path)
+			key := filepath.Join(*target, rel)
+			if _, done := overlay[key]; done {
+				return nil
+			}
+			a, _ := os.ReadFile(path)
+			b, err2 := os.ReadFile(key)
+			if err2 != nil || string(a) != string(b) {
+				overlay[key] = path
+			}
+			return nil
+		})
 	}
 	// hook files: <hooks>/<pkgdir>/<name>.go are added as <repo>/<pkgdir>/zz_verif_<name>.go
 	if *hooks != "" {
@@ -623,7 +643,7 @@ func main() {
 			}
 			rel, _ := filepath.Rel(*hooks, path)
 			dir := filepath.Dir(rel)
-			overlay[filepath.Join(*repo, dir, "zz_verif_"+filepath.Base(rel))] = path
+			overlay[filepath.Join(*target, dir, "zz_verif_"+filepath.Base(rel))] = path
 			return nil
 		})
 	}
